@@ -355,10 +355,10 @@ theorem get_assign_twin (keys : List Key) (v : Tree) :
 of `new`, and even when the call raises half-way, every top-level key that `new` does not
 mention in either spelling keeps exactly its previous value -/
 theorem update_preserves_unmentioned (env : Env) (prio : Priority) (k' : Key)
-    (new : List (Key × Tree)) (old : Dict) (defs : Option Tree)
+    (new : List (Key × Tree)) (nested : Bool) (old : Dict) (defs : Option Tree)
     (h : ∀ kv ∈ new, kv.1 ≠ k' ∧ altKey kv.1 ≠ k') :
-    dget (updateP env prio old defs new).1 k' = dget old k' :=
-  update_frame env prio k' new old defs h
+    dget (updateP env prio nested old defs new).1 k' = dget old k' :=
+  update_frame env prio k' new nested old defs h
 
 /-- the same for a successful `update_defaults`: entries of the configuration the new
 defaults do not mention are untouched -/
@@ -386,7 +386,7 @@ theorem updateDefaults_preserves_unmentioned (env : Env) (s s' : State) (new : D
           have := h kv0 hkv0
           rw [he] at this
           exact this
-        have hf := update_frame env Priority.newDefaults k' new' s.config (some (Tree.node cur)) h'
+        have hf := update_frame env Priority.newDefaults k' new' false s.config (some (Tree.node cur)) h'
         unfold update at h3
         split at h3
         · rename_i d hd
